@@ -164,7 +164,89 @@ def function_body_literal():
                 [("o1", "P0", "m"), ("o2", "P0", "c")], ["function-body-literal"])
 
 
+def inner_public_secret():
+    """inner product of a public array with a secret array"""
+    return prog([inp("a", "a", ("arr", PI, 3)), inp("b", "b", ("arr", SI, 3), "P1"), {"k": "inner", "x": "r", "a": "a", "b": "b"}],
+                [("o", "P0", "r")], ["inner-public-secret"])
+
+
+def inner_int_uint():
+    return prog([inp("a", "a", ("arr", SI, 3)), inp("b", "b", ("arr", SU, 3), "P1"), {"k": "inner", "x": "r", "a": "a", "b": "b"}],
+                [("o", "P0", "r")], ["inner-int-uint"])
+
+
+def untruthful_annotation():
+    """a function annotated public applied to a secret argument (known finding C03)"""
+    f = {"k": "def", "f": "ident", "params": [("e", PI)], "ret": PI,
+         "body": [{"k": "bin", "x": "s", "op": "OAdd", "a": "e", "b": "e"}], "res": "s", "form": "decorator"}
+    return prog([f, inp("x", "x", SI), {"k": "call", "x": "r", "f": "ident", "args": ["x"], "kwargs": []}],
+                [("o", "P0", "r")], ["untruthful-annotation"])
+
+
+def secret_flows():
+    """secrets flowing through every container operation and through functions; the legitimate declassifiers"""
+    f = {"k": "def", "f": "mix", "params": [("acc", SI), ("e", SI)], "ret": SI,
+         "body": [{"k": "bin", "x": "s", "op": "OAdd", "a": "acc", "b": "e"}], "res": "s", "form": "decorator"}
+    g2 = {"k": "def", "f": "pubf", "params": [("e", PI)], "ret": SI,
+          "body": [{"k": "bin", "x": "s", "op": "OMul", "a": "e", "b": "sec"}], "res": "s", "form": "decorator"}
+    return prog([inp("sec", "sec", SI), inp("pub", "pub", PI, "P1"), inp("pa", "pa", ("arr", PI, 2)), inp("sa", "sa", ("arr", SI, 2)),
+                 f, g2, {"k": "map", "x": "m", "a": "pa", "f": "pubf"}, {"k": "reduce", "x": "r", "a": "sa", "f": "mix", "init": "sec"},
+                 {"k": "zip", "x": "z", "a": "pa", "b": "sa"}, {"k": "unzip", "x": "uz", "a": "z"},
+                 {"k": "ntnew", "x": "nt", "es": ["pub", "sec", "pa"]}, {"k": "idx", "x": "n0", "a": "nt", "i": 0},
+                 {"k": "idx", "x": "n1", "a": "nt", "i": 1}, {"k": "objnew", "x": "ob", "fs": [("a", "pub"), ("b", "sec")]},
+                 {"k": "fld", "x": "oa", "a": "ob", "f": "a"}, {"k": "topublic", "x": "rev", "a": "sec"},
+                 {"k": "bin", "x": "pe", "op": "OPublicEquals", "a": "sec", "b": "pub"},
+                 {"k": "bin", "x": "cmp", "op": "OLt", "a": "pub", "b": "sec"}, {"k": "ifelse", "x": "ie", "c": "cmp", "a": "pub", "b": "pub"},
+                 {"k": "random", "x": "rnd", "b": "Bool"}, {"k": "ifelse", "x": "ie2", "c": "rnd", "a": "n0", "b": "oa"},
+                 {"k": "bin", "x": "s2", "op": "OAdd", "a": "rev", "b": "n0"}],
+                [("o1", "P0", "m"), ("o2", "P0", "r"), ("o3", "P1", "uz"), ("o4", "P1", "n1"), ("o5", "P0", "s2"),
+                 ("o6", "P0", "pe"), ("o7", "P0", "ie"), ("o8", "P1", "ie2")], ["secret-flows"])
+
+
+def dup_inputs(kind):
+    """colliding input names"""
+    st = [inp("x", "dup", SI, "P0"), inp("y", "dup", PI if kind == "same-party-diff-type" else SI,
+                                         "P1" if kind.startswith("diff-party") else "P0"), inp("z", "other", SI)]
+    if kind.endswith("one-dead"):
+        return prog(st, [("o1", "P0", "x"), ("o2", "P0", "z")], ["dup-input", kind])
+    return prog(st, [("o1", "P0", "x"), ("o2", "P0", "y")], ["dup-input", kind, "must-reject"])
+
+
+def output_of_function():
+    f = {"k": "def", "f": "ff", "params": [("e", SI)], "ret": SI, "body": [], "res": "e", "form": "decorator"}
+    return prog([inp("x", "x", SI), f], [("o", "P0", "ff")], ["output-non-nada", "must-reject"])
+
+
+def rejected_functions():
+    CI = S("Const", "Int")
+    out = []
+    out.append(prog([{"k": "def", "f": "lr", "params": [("e", SI)], "ret": CI, "body": [{"k": "lit", "x": "l", "b": "Int", "v": 1}], "res": "l", "form": "decorator"},
+                     inp("x", "x", SI)], [("o", "P0", "x")], ["literal-return", "must-reject"]))
+    out.append(prog([{"k": "def", "f": "al", "params": [("k", CI), ("j", S("Const", "UInt"))], "ret": SI, "body": [inp("q", "q", SI)], "res": "q", "form": "decorator"},
+                     inp("x", "x", SI)], [("o", "P0", "x")], ["all-literal-params", "must-reject"]))
+    out.append(prog([{"k": "def", "f": "al2", "params": [("k", CI)], "ret": SI, "body": [inp("q", "q", SI)], "res": "q", "form": "explicit"},
+                     inp("x", "x", SI)], [("o", "P0", "x")], ["all-literal-params", "must-reject"]))
+    return out
+
+
+def signatures():
+    """functions with 1..4 parameters of pairwise different types, both forms, non-commutative bodies"""
+    f = {"k": "def", "f": "f4", "params": [("a", SI), ("b", PI), ("c", SU), ("d", PU)], "ret": SI,
+         "body": [{"k": "bin", "x": "s", "op": "OSub", "a": "a", "b": "b"}, {"k": "bin", "x": "t", "op": "OLShift", "a": "s", "b": "d"},
+                  {"k": "bin", "x": "u", "op": "ORShift", "a": "c", "b": "d"}], "res": "t", "form": "explicit"}
+    g2 = {"k": "def", "f": "g2", "params": [("p", PB), ("q", SI)], "ret": SI,
+          "body": [{"k": "ifelse", "x": "s", "c": "p", "a": "q", "b": "q"}], "res": "s", "form": "decorator"}
+    return prog([f, g2, inp("a", "a", SI), inp("b", "b", PI), inp("c", "c", SU, "P1"), inp("d", "d", PU, "P1"), inp("pb", "pb", PB),
+                 {"k": "call", "x": "r1", "f": "f4", "args": ["a", "b", "c", "d"], "kwargs": []},
+                 {"k": "call", "x": "r2", "f": "g2", "args": ["pb", "r1"], "kwargs": []},
+                 {"k": "call", "x": "r3", "f": "g2", "args": ["pb", "a"], "kwargs": []}],
+                [("o1", "P0", "r2"), ("o2", "P1", "r3")], ["signatures"])
+
+
 def all_families():
     return [nested_capture(), reduce_computed_initial(), shared_function_two_sites(), function_calls_function(),
             compound_types(), array_param(), size_zero_array(), helper_from_two_functions(), same_value_two_types(),
-            map_zip_mixed(), public_returning_function(), literal_param_fold(), kwargs_call(), noncommutative_mix(), function_body_literal()]
+            map_zip_mixed(), public_returning_function(), literal_param_fold(), kwargs_call(), noncommutative_mix(), function_body_literal(),
+            inner_public_secret(), inner_int_uint(), untruthful_annotation(), secret_flows(), signatures(), output_of_function(),
+            dup_inputs("same-party"), dup_inputs("same-party-diff-type"), dup_inputs("diff-party"), dup_inputs("diff-party-one-dead"),
+            dup_inputs("same-party-one-dead")] + rejected_functions()
